@@ -31,6 +31,40 @@ MODULES = ["filters/inject_meta_charset.py", "serializer.py", "constants.py"]
 REL = "filters/inject_meta_charset.py"
 
 
+def _canonical_filter(f):
+    """The filter's locals are found by role and renamed to the names the rules below are written in."""
+    import copy
+    from ..repo import discover_locals, rename_locals
+
+    def name_of(t):
+        return t.id if isinstance(t, ast.Name) else None
+
+    def simple(st):
+        return isinstance(st, ast.Assign) and len(st.targets) == 1 and isinstance(st.targets[0], ast.Name)
+    loop = next((s for s in f.node.body if isinstance(s, ast.For)), None)
+    tokv = name_of(loop.target) if loop is not None else None
+    roles = [
+        ("meta_found", lambda st: st.targets[0].id if simple(st) and "self.encoding is None" in norm(st.value) else None),
+        ("state", lambda st: st.targets[0].id if simple(st) and isinstance(st.value, ast.Constant) and st.value.value == "pre_head" else None),
+        ("token", lambda st: tokv if st is loop else None),
+        ("type", lambda st: st.targets[0].id if simple(st) and tokv and norm(st.value) == "%s['type']" % tokv else None),
+        ("pending", lambda st: st.targets[0].id if simple(st) and isinstance(st.value, ast.List) and not st.value.elts and any(
+            isinstance(c, ast.Call) and isinstance(c.func, ast.Attribute) and c.func.attr == "append" and
+            norm(c.func.value) == st.targets[0].id and c.args and norm(c.args[0]) == tokv for c in ast.walk(f.node)) else None),
+        ("has_http_equiv_content_type", lambda st: st.targets[0].id if simple(st) and isinstance(st.value, ast.Constant) and st.value.value is False else None),
+    ]
+    mapping = discover_locals(f.node, roles)
+    for lp in ast.walk(f.node):
+        if isinstance(lp, ast.For) and isinstance(lp.target, ast.Tuple) and len(lp.target.elts) == 2 and \
+                isinstance(lp.target.elts[0], ast.Tuple) and len(lp.target.elts[0].elts) == 2 and ".items()" in norm(lp.iter):
+            (a, b), c = lp.target.elts[0].elts, lp.target.elts[1]
+            if all(isinstance(x, ast.Name) for x in (a, b, c)):
+                mapping.update({a.id: "namespace", b.id: "name", c.id: "value"})
+    g = copy.copy(f)
+    g.node = rename_locals(f.node, mapping)
+    return g
+
+
 def run(ctx):
     r = ctx.r
     ce, repo = ctx.ce, ctx.repo
@@ -55,6 +89,7 @@ def run(ctx):
 
     # ---- R15.2
     f = repo.func(REL, "Filter.__iter__")
+    f = _canonical_filter(f)
     cfg = CFG(f.node)
     src = " ".join(norm(f.node).split())
 
@@ -161,8 +196,12 @@ def run(ctx):
                 "%s is compared case-sensitively with %r: a declaration spelt `Content-Type` / `CHARSET` is not recognised, the "
                 "stale one stays and a second one is injected" % (what, lit), detail={"literal": lit})
     reader = repo.func("html5parser.py", "InHeadPhase.startTagMeta")
-    r.check("R15.2", "attributes['http-equiv'].lower() == 'content-type'" in norm(reader.node), "reader-is-case-insensitive", reader.where,
-            "the reading side no longer lower-cases the http-equiv value (writer/reader agreement basis changed)")
+    rtests = [n for n in ast.walk(reader.node) if isinstance(n, ast.Compare) and len(n.ops) == 1 and isinstance(n.ops[0], ast.Eq)
+              and isinstance(n.comparators[0], ast.Constant) and n.comparators[0].value == "content-type"]
+    r.idiom("R15.2", len(rtests) == 1 and insens(rtests[0].left) and "'http-equiv'" in norm(rtests[0].left), "reader-is-case-insensitive", reader.where,
+            "the reading side's http-equiv test was not recognised (writer/reader agreement basis changed)",
+            wrong=[(len(rtests) == 1 and not insens(rtests[0].left), "the reading side no longer lower-cases the http-equiv value: the "
+                    "writer recognises `Content-Type`, the reader does not (judged by C06.7)")])
     # no token dropped: the loop body ends with `if state == "in_head": pending.append(token) else: yield token`,
     # and the only `continue` follows the replacement of an empty head
     loop = next((s for s in f.node.body if isinstance(s, ast.For)), None)
